@@ -5,7 +5,7 @@ from __future__ import annotations
 import ast
 
 from ..cfg import CFG
-from ..core import AnalysisError, const_value
+from ..core import callee_is, AnalysisError, const_value
 from ..defuse import DefUse, Terms, show, walk_term
 from ..defuse import key as tkey
 from ..effects import (WriterEvents, fs_enumerations, open_calls,
@@ -158,7 +158,7 @@ def _check_outputs_initialised(ctx):
     T = Terms(DefUse(prog, g), phi_vars=True)
     evs = container_events(g.node, T, cfg)
     lc = [n for n in ast.walk(g.node) if isinstance(n, ast.Call)
-          and ast.unparse(n.func) == "LinearConfidence"]
+          and callee_is(prog, g, n, "LinearConfidence")]
     ctx.require(len(lc) == 1, f"{g.qual}: LinearConfidence call not found")
     op = {k.arg: k.value for k in lc[0].keywords}.get("out_paths")
     ctx.require(op is not None, f"{g.qual}: out_paths not passed")
@@ -283,7 +283,7 @@ def _check_sorted_iterator(ctx):
     T = Terms(du)
     cfg = CFG(f.node)
     ms = [n for n in ast.walk(f.node) if isinstance(n, ast.Call)
-          and isinstance(n.func, ast.Name) and n.func.id == "merge_sort"]
+          and callee_is(prog, f, n, "mokapot.utils.merge_sort")]
     ctx.require(len(ms) == 1, f"{f.qual}: expected one merge_sort call")
     merged = T.of(ms[0].args[0])
     bad = [x for x in walk_term(merged)
@@ -432,7 +432,7 @@ def _check_level_cleanup(ctx):
     ctx.require(len(loops) == 1, f"{f.qual}: level loop not found")
     lp = loops[0]
     unl = [n for n in ast.walk(lp) if isinstance(n, ast.Call)
-           and ast.unparse(n.func) in ("os.unlink", "os.remove")
+           and callee_is(prog, f, n, "os.unlink", "os.remove")
            and n.args and isinstance(n.args[0], ast.Name)]
     path_var = None
     for n in unl:
